@@ -259,8 +259,12 @@ func runC15Frames(cs CaseSpec) *CaseResult {
 	nw.DefaultOpts = opts
 	nw.GenesisNodes(int(cs.I("n", 4)), opts, nil)
 	rng := cs.rng("c15fr")
-	sp := ScheduleSpec{Steps: int(cs.I("steps", 250)), Shape: "uniform", SubmitProb: 0.5, TxKinds: 6, Joins: int(cs.I("joins", 1)), EmptyProb: 0.05}
+	sp := ScheduleSpec{Steps: int(cs.I("steps", 250)), Shape: "uniform", SubmitProb: 0.5, TxKinds: 6, Joins: int(cs.I("joins", 1)), Leaves: int(cs.I("leaves", 0)), Simultaneous: cs.I("simultaneous", 0) == 1, EmptyProb: 0.05}
+	nw.Mons = []Monitor{NewMonEncoding()}
 	nw.RunSchedule(sp)
+	if nw.stopped {
+		return res
+	}
 	nw.FairCycles(10)
 	checked := 0
 	for _, n := range nw.upReal() {
@@ -367,7 +371,12 @@ func init() {
 			cs := []CaseSpec{}
 			for i := 0; i < count; i++ {
 				if i%3 == 2 {
-					cs = append(cs, CaseSpec{Kind: "frames", P: map[string]int64{"n": int64(3 + i%4), "steps": int64(200 + (i*31)%200), "joins": int64(i % 2)}})
+					c := CaseSpec{Kind: "frames", P: map[string]int64{"n": int64(3 + i%4), "steps": int64(200 + (i*31)%200), "joins": int64(i % 2)}}
+					if i%6 == 5 {
+						// several membership requests, some through the same node
+						c.P["n"], c.P["joins"], c.P["leaves"], c.P["simultaneous"], c.P["steps"] = 4, 3, 1, 1, 420
+					}
+					cs = append(cs, c)
 				} else {
 					cs = append(cs, CaseSpec{Kind: "events", P: map[string]int64{"n": int64(2 + i%4), "events": 220, "cache": int64(120 + (i*7)%60)}})
 				}
@@ -513,4 +522,70 @@ func runC15PeerSets(cs CaseSpec) *CaseResult {
 	}
 	res.Sample = map[string]interface{}{"kind": "validator sets through the database", "sets": len(sets), "spellings": "0X upper / 0x lower / 0X lower / mixed"}
 	return res
+}
+
+// MonEncoding: every event a node holds must keep hashing to the key it is
+// stored under, keep a valid signature of its creator, and survive the wire
+// form (event -> wire -> transport JSON -> event, on the same node, which knows
+// its parents) with the same hash - at the time it is first seen and every time
+// it is looked at again (an event is immutable once signed).
+type MonEncoding struct {
+	seen map[int]int // node -> number of order entries already examined once
+}
+
+func NewMonEncoding() *MonEncoding        { return &MonEncoding{seen: map[int]int{}} }
+func (m *MonEncoding) Name() string       { return "encoding" }
+func (m *MonEncoding) Finish(nw *Network) {}
+func (m *MonEncoding) AfterStep(nw *Network) {
+	for _, n := range nw.Nodes {
+		if n.Node == nil || n.Puppet || !n.Up || n.StoreClosed {
+			continue
+		}
+		st := n.Core.Hg().Store
+		// new events, plus a window of older ones again
+		lo := m.seen[n.Idx] - 40
+		if lo < 0 {
+			lo = 0
+		}
+		for i := lo; i < len(n.order); i++ {
+			h := n.order[i]
+			ev, err := st.GetEvent(h)
+			if err != nil {
+				continue
+			}
+			nw.Res.count("encoding_stored_events_examined", 1)
+			fresh := &hg.Event{Body: ev.Body, Signature: ev.Signature}
+			if fresh.Hex() != h {
+				nw.violate("C15", "C15:stored-event-no-longer-hashes-to-its-key",
+					fmt.Sprintf("node %d: the event stored under %s (creator %s index %d) now hashes to %s: its body changed after it was signed", n.Idx, trunc(h, 14), trunc(ev.Creator(), 12), ev.Index(), trunc(fresh.Hex(), 14)),
+					map[string]interface{}{"node": n.Idx, "internal_transactions": len(ev.Body.InternalTransactions), "transactions": len(ev.Body.Transactions)})
+				return
+			}
+			if (i >= m.seen[n.Idx] || nw.Step%10 == 0) && !harnessVerify(fresh) {
+				nw.violate("C15", "C15:stored-event-signature-invalid", fmt.Sprintf("node %d: the signature of stored event %s no longer verifies", n.Idx, trunc(h, 14)), map[string]interface{}{"node": n.Idx})
+				return
+			}
+			if i >= m.seen[n.Idx] {
+				// wire round trip on this node
+				w, err := n.Core.ToWire([]*hg.Event{ev})
+				if err != nil || len(w) != 1 {
+					continue
+				}
+				var w2 hg.WireEvent
+				if wireCopy(&w[0], &w2) != nil {
+					continue
+				}
+				back, err := n.Core.FromWire([]hg.WireEvent{w2})
+				if err != nil || len(back) != 1 {
+					continue
+				}
+				nw.Res.count("encoding_wire_round_trips_of_stored_events", 1)
+				if back[0].Hex() != h {
+					nw.violate("C15", "C15:hash-changes-over-wire", fmt.Sprintf("node %d: stored event %s comes back from its wire form with hash %s", n.Idx, trunc(h, 14), trunc(back[0].Hex(), 14)), map[string]interface{}{"node": n.Idx})
+					return
+				}
+			}
+		}
+		m.seen[n.Idx] = len(n.order)
+	}
 }
